@@ -5,6 +5,8 @@ package goat
 import (
 	"context"
 	"errors"
+	"google.golang.org/grpc/codes"
+	"google.golang.org/grpc/status"
 	"io"
 
 	"github.com/avos-io/goat/gen/testproto"
@@ -125,8 +127,15 @@ func H_C06_wire() {
 	badmsg := vfParam("badmsg", 0) // the caller passes a message the codec cannot marshal
 	zero := vfParam("zero", 0)     // the caller's messages are zero-valued (they encode to zero bytes)
 	var herr error
-	if herrP == 1 {
+	switch herrP {
+	case 1:
 		herr = errors.New("handler failed")
+	case 2: // the handler's own Canceled-flavoured failures: its caller has NOT gone, a trailer is due
+		herr = status.Error(codes.Canceled, "downstream call cancelled")
+	case 3:
+		herr = context.Canceled
+	case 4:
+		herr = context.DeadlineExceeded
 	}
 	impl := &zzImpl{}
 	impl.unary = func(ctx context.Context, in *testproto.Msg) (*testproto.Msg, error) {
@@ -283,6 +292,15 @@ func H_C04_stream_md() {
 		case 2:
 			if err := stream.SendHeader(metadata.MD{"late": {"x"}}); err != nil {
 				return err
+			}
+		case 3, 4:
+			// the first message cannot be encoded: nothing leaves, and the pending headers must still
+			// go out with whatever leaves next (mode 3: the final status; mode 4: the next message)
+			stream.SendMsg("not a protobuf message")
+			if mode == 4 {
+				if err := stream.SendMsg(&testproto.Msg{Value: 7}); err != nil {
+					return err
+				}
 			}
 		}
 		return herr
